@@ -41,6 +41,7 @@ class Tr:
         self.fn_arity = fn_arity  # gate function name -> number of parameters (None = not translated)
         self.expansions = {}      # gate function name -> mexp text of the operator its N-expansion branch embeds (or None)
         self.current = None       # (name, arity) of the function being translated: its expansion branch calls itself
+        self.module_env = {}      # module-level scalar constants (name -> translated expression), bound exactly once
 
     # ---- scalars --------------------------------------------------------------------------
     def ex(self, n, env):
@@ -283,7 +284,7 @@ def translate_function(fd, tr):
         if p in ("N", "target", "targets", "control", "controls", "control_value"):
             break
         gate_params.append(p)
-    env = {}
+    env = dict(tr.module_env)
     if fd.name == "cphase":
         # validation ifs, then the tensor construction  |v><v| (x) phasegate(theta) + |1-v><1-v| (x) 1  on (control, target);
         # recognised by data flow (any statement order, any local names), not by text
@@ -293,6 +294,8 @@ def translate_function(fd, tr):
         if params[:4] != ["theta", "N", "control", "target"] or dflt != ["2", "0", "1"]:
             raise Refuse("cphase signature/defaults changed")
         return 1, f"MCtrl 1 {cv} (msubst [Var 0] fn_phasegate)"
+    for p in params:
+        env.pop(p, None)          # parameters shadow module-level names
     for j, p in enumerate(gate_params):
         env[p] = f"Var {j}"
     arity = len(gate_params)
@@ -302,14 +305,38 @@ def translate_function(fd, tr):
     if stmts and isinstance(stmts[0], ast.Assign) and isinstance(stmts[0].targets[0], ast.Tuple) \
             and isinstance(stmts[0].value, ast.Name) and stmts[0].value.id in env and arity == 1:
         names = [e.id for e in stmts[0].targets[0].elts]
-        env = {nm: f"Var {j}" for j, nm in enumerate(names)}
+        env = dict(tr.module_env, **{nm: f"Var {j}" for j, nm in enumerate(names)})
         arity = len(names)
         stmts = stmts[1:]
     tr.current = (fd.name, arity)
-    # deprecated expansion branches: `if <placement test> and N is None: N = k` and `if N is not None: ... return expand_operator(...)`
-    while stmts and isinstance(stmts[0], ast.If):
+    # deprecated expansion branches: `if <placement test> and N is None: N = k` and `if N is not None: ... return expand_operator(...)`;
+    # local scalar temporaries (`c = np.cos(..)`, `a, b = e1, e2`) are bound in a block-scoped environment: each name
+    # may be bound once and stands for its (already translated) expression
+    def bind(name, value_node):
+        if name in env or name in params:
+            raise Refuse(f"local name {name} bound twice / shadows a parameter")
+        env[name] = "(" + tr.ex(value_node, env) + ")"
+
+    while stmts and isinstance(stmts[0], (ast.If, ast.Assign)):
         s = stmts[0]
         txt = ast.unparse(s)
+        if isinstance(s, ast.Assign):
+            if len(s.targets) != 1:
+                raise Refuse("chained assignment")
+            tg = s.targets[0]
+            if isinstance(tg, ast.Name):
+                bind(tg.id, s.value)
+            elif isinstance(tg, ast.Tuple) and isinstance(s.value, ast.Tuple) and len(tg.elts) == len(s.value.elts) \
+                    and all(isinstance(e, ast.Name) for e in tg.elts):
+                texts = [tr.ex(v, env) for v in s.value.elts]   # right-hand sides are evaluated before any binding
+                for e, tx in zip(tg.elts, texts):
+                    if e.id in env or e.id in params:
+                        raise Refuse(f"local name {e.id} bound twice / shadows a parameter")
+                    env[e.id] = "(" + tx + ")"
+            else:
+                raise Refuse("unrecognised assignment: " + txt[:80])
+            stmts = stmts[1:]
+            continue
         if "N is None" in ast.unparse(s.test) and len(s.body) == 1 and isinstance(s.body[0], ast.Assign) \
                 and ast.unparse(s.body[0].targets[0]) == "N" and not s.orelse:
             stmts = stmts[1:]
@@ -349,6 +376,24 @@ def generate():
     # pass 1: arities of candidate gate functions (so calls between them resolve)
     fn_arity = {}
     tr = Tr(fn_arity)
+    # module-level scalar constants (`_EXP_I_PI_4 = np.exp(1j * np.pi / 4)`): usable inside the gate functions; a name
+    # assigned more than once at module level, or whose value is not a closed scalar expression, is simply not bound
+    seen = {}
+    for n in gt.body:
+        tgs = []
+        if isinstance(n, ast.Assign):
+            tgs = [x.id for x in n.targets if isinstance(x, ast.Name)]
+        elif isinstance(n, (ast.AnnAssign, ast.AugAssign)) and isinstance(n.target, ast.Name):
+            tgs = [n.target.id]
+        for nm in tgs:
+            seen[nm] = seen.get(nm, 0) + 1
+    for n in gt.body:
+        if isinstance(n, ast.Assign) and len(n.targets) == 1 and isinstance(n.targets[0], ast.Name) \
+                and seen.get(n.targets[0].id) == 1 and n.targets[0].id not in funcs:
+            try:
+                tr.module_env[n.targets[0].id] = "(" + tr.ex(n.value, {}) + ")"
+            except Refuse:
+                pass
     order = list(funcs)
     results = {}
     refused = {}
@@ -373,9 +418,15 @@ def generate():
         try:
             if len(b) == 2 and isinstance(b[0], ast.Assign) and isinstance(b[0].value, ast.BinOp) \
                     and isinstance(b[0].value.op, ast.Mult) and ast.unparse(b[0].value.right).startswith("sp.eye(2 ** N, 2 ** N") \
-                    and ast.unparse(b[1]) == "return Qobj(data, dims=[[2] * N, [2] * N])" \
-                    and ast.unparse(b[0].targets[0]) == "data":
-                gp_ex = tr.ex(b[0].value.left, {"theta": "Var 0"})
+                    and len(b[0].targets) == 1 and isinstance(b[0].targets[0], ast.Name) \
+                    and ast.unparse(b[1]) == f"return Qobj({b[0].targets[0].id}, dims=[[2] * N, [2] * N])":
+                gp_ex = tr.ex(b[0].value.left, dict(tr.module_env, theta="Var 0"))
+            elif len(b) == 1 and isinstance(b[0], ast.Return) and isinstance(b[0].value, ast.Call) \
+                    and ast.unparse(b[0].value.func) == "Qobj" and len(b[0].value.args) == 1 \
+                    and isinstance(b[0].value.args[0], ast.BinOp) and isinstance(b[0].value.args[0].op, ast.Mult) \
+                    and ast.unparse(b[0].value.args[0].right).startswith("sp.eye(2 ** N, 2 ** N") \
+                    and [ast.unparse(k.value) for k in b[0].value.keywords if k.arg == "dims"] == ["[[2] * N, [2] * N]"]:
+                gp_ex = tr.ex(b[0].value.args[0].left, dict(tr.module_env, theta="Var 0"))
         except Refuse as r:
             refused["globalphase"] = str(r)
     if gp_ex is None:
